@@ -257,3 +257,85 @@ func ModelXORBytes(dst, x, y []byte) int {
 	}
 	return n
 }
+
+// ---------- sync.Map: insertion-ordered association list per map object ----------
+
+type syncMapModel struct {
+	keys []any
+	vals map[any]any
+}
+
+var syncMaps = map[*sync.Map]*syncMapModel{}
+
+func smap(m *sync.Map) *syncMapModel {
+	sm, ok := syncMaps[m]
+	if !ok {
+		sm = &syncMapModel{vals: map[any]any{}}
+		syncMaps[m] = sm
+	}
+	return sm
+}
+
+func ModelSyncMapLoad(m *sync.Map, key any) (any, bool) {
+	v, ok := smap(m).vals[key]
+	return v, ok
+}
+
+func ModelSyncMapStore(m *sync.Map, key, value any) {
+	sm := smap(m)
+	if _, ok := sm.vals[key]; !ok {
+		sm.keys = append(sm.keys, key)
+	}
+	sm.vals[key] = value
+}
+
+func ModelSyncMapLoadOrStore(m *sync.Map, key, value any) (any, bool) {
+	sm := smap(m)
+	if v, ok := sm.vals[key]; ok {
+		return v, true
+	}
+	sm.keys = append(sm.keys, key)
+	sm.vals[key] = value
+	return value, false
+}
+
+func ModelSyncMapLoadAndDelete(m *sync.Map, key any) (any, bool) {
+	sm := smap(m)
+	v, ok := sm.vals[key]
+	if ok {
+		delete(sm.vals, key)
+	}
+	return v, ok
+}
+
+func ModelSyncMapDelete(m *sync.Map, key any) { ModelSyncMapLoadAndDelete(m, key) }
+
+func ModelSyncMapSwap(m *sync.Map, key, value any) (any, bool) {
+	sm := smap(m)
+	v, ok := sm.vals[key]
+	if !ok {
+		sm.keys = append(sm.keys, key)
+	}
+	sm.vals[key] = value
+	return v, ok
+}
+
+func ModelSyncMapRange(m *sync.Map, f func(key, value any) bool) {
+	sm := smap(m)
+	keys := append([]any(nil), sm.keys...)
+	for _, k := range keys {
+		v, ok := sm.vals[k]
+		if !ok {
+			continue
+		}
+		if !f(k, v) {
+			return
+		}
+	}
+}
+
+func ModelSyncMapClear(m *sync.Map) {
+	sm := smap(m)
+	sm.keys = nil
+	sm.vals = map[any]any{}
+}
